@@ -401,9 +401,12 @@ func (p *prover) cleanBetween(a, b ssa.Instruction, path string, load *ssa.UnOp)
 		}
 		return -1
 	}
-	if ba == bb && idx(a) <= idx(b) && !inLoop(ba) {
+	if ba == bb && idx(a) <= idx(b) {
+		// a precedes b in one block: only the straight line between them (a path that leaves the
+		// block and comes back re-executes a)
 		return scan(ba, idx(a)+1, idx(b))
 	}
+	_ = inLoop
 	// region: blocks on paths from a to b that do not pass through a's block again (a dominates b:
 	// a path that re-enters a's block re-executes a, and b then sees that later execution)
 	fwd := map[*ssa.BasicBlock]bool{}
